@@ -44,13 +44,46 @@ func checkSingleFlight(x *Exec, r *Rig, p concParams, recs [][]opRec, threadIDs 
 			}
 		}
 	}
-	// (1) loader invocations for one key never overlap in time (no writers / evictions in these scenarios)
-	if !writers {
+	// (1) loader invocations for one key never overlap in time, unless the key was written or invalidated between
+	//     the start of the earlier of the two operations and the later loader entry
+	opStart := func(lc LoadCall) int64 {
+		for _, rs := range recs {
+			for _, rc := range rs {
+				if rc.tid == lc.Thread && rc.call <= lc.Enter && lc.Enter <= rc.ret {
+					return rc.call
+				}
+			}
+		}
+		return 0
+	}
+	writtenBetween := func(k int, from, to int64) bool {
+		for _, rs := range recs {
+			for _, rc := range rs {
+				f := opFields(rc.op)
+				switch f[0] {
+				case "set", "sia", "cw", "ci", "inv", "invall", "cia", "cipw", "cipi":
+					if (f[0] == "invall" || atoi(f[1]) == k) && rc.call <= to && rc.ret >= from {
+						return true
+					}
+				}
+			}
+		}
+		return false
+	}
+	_ = writers
+	{
 		for i := 0; i < len(r.Loads); i++ {
 			for j := i + 1; j < len(r.Loads); j++ {
 				a, b := r.Loads[i], r.Loads[j]
+				if b.Enter < a.Enter {
+					a, b = b, a
+				}
 				if a.Enter < b.Exit && b.Enter < a.Exit {
 					for _, k := range a.Keys {
+						// (the flight whose operation began first may enter its loader last: take the earlier operation start)
+						if containsKey(b.Keys, k) && writtenBetween(k, min(opStart(a), opStart(b)), b.Enter) {
+							continue
+						}
 						if containsKey(b.Keys, k) {
 							x.Fail("loader-overlap", "loader"+lbl, "the loader was invoked for key %d by %s%v [%d,%d] while %s%v [%d,%d] for the same key was still running", k, b.Kind, b.Keys, b.Enter, b.Exit, a.Kind, a.Keys, a.Enter, a.Exit)
 						}
